@@ -149,6 +149,14 @@ package reflect
 //@     && (t.FixedSize > 0 ==> minWireSize[t.WT] == t.FixedSize)
 //@     && (t.FixedSize == 0 || t.FixedSize == 1 || t.FixedSize == 2 || t.FixedSize == 4 || t.FixedSize == 8)
 
+// The decoder rejects a container whose declared count cannot fit the remaining input, assuming
+// each element takes at least minWireSize[wire type] bytes. That table must never exceed the
+// smallest wire form of a kind (written here from the protocol: empty string = 4-byte length,
+// empty struct = STOP, empty list/set = 5-byte header, empty map = 6-byte header), or well-formed
+// messages would be rejected (C03).
+//@ spec func minWireSpec(wt Int) Int = (wt == tBOOL || wt == tBYTE) ? 1 : wt == tI16 ? 2 : wt == tI32 ? 4 : (wt == tI64 || wt == tDOUBLE) ? 8 : wt == tSTRING ? 4 : wt == tSTRUCT ? 1 : wt == tMAP ? 6 : (wt == tSET || wt == tLIST) ? 5 : 0
+//@ lemma c03_minwire: forall wt Int :: {minWireSize[wt]} 0 <= wt && wt < 256 ==> minWireSize[wt] == minWireSpec(wt)
+
 //@ axiom wfT_V: forall t *tType :: {wfT(t), t.V} wfT(t) && (t.IsPointer || t.T == tMAP || t.T == tLIST || t.T == tSET) ==> wfT(t.V)
 //@ axiom wfT_K: forall t *tType :: {wfT(t), t.K} wfT(t) && t.T == tMAP ==> wfT(t.K)
 
@@ -276,6 +284,8 @@ package reflect
 //@   ensures c06_mono: $(spanmono)
 
 //@ func (d *tDecoder) mallocIfPointer(t *tType, p unsafe.Pointer) (ret unsafe.Pointer)
+//@   ghost sbase Int, fld *tField, wid Int
+//@   requires c03_slot: fld != nil && fld.ID == wid && t == fld.Type && p == sbase + fld.Offset
 //@   requires d != nil && spanInv(&d.s) && wfT(t) && p != nil
 //@   requires c06_dest: destOK(d, p, t.Size)
 //@   ensures c06_dest: destOK(d, ret, slotSize(t))
@@ -309,7 +319,8 @@ package reflect
 // (sign-extended from 32 bits for enums); every call site passes the kind of the descriptor whose
 // slot is being filled (ghost td, c01_kind).
 //@ func decodeFixedSizeTypes(t ttype, b []byte, p unsafe.Pointer) (n int)
-//@   ghost td *tType
+//@   ghost td *tType, dst Int
+//@   requires c03_dest: dst != 0 ==> p == dst
 //@   requires c01_kind: td != nil && t == td.T
 //@   requires p != nil && typeToSize[t] > 0 && len(b) >= typeToSize[t]
 //@   modifies M[p : p + storeSize(t)]
@@ -331,7 +342,8 @@ package reflect
 //@   ensures r == isBin(t)
 
 //@ func decodeStringNoCopy(t *tType, b []byte, p unsafe.Pointer) (i int, err error)
-//@   ghost wt Int, nc Bool
+//@   ghost wt Int, nc Bool, dst Int
+//@   requires c03_dest: dst != 0 ==> p == dst
 //@   requires c03_wt: t.WT == wt
 //@   requires c14_dispatch: nc
 //@   requires wfT(t) && t.WT == tSTRING && p != nil
@@ -370,6 +382,8 @@ package reflect
 //@     && (forall k int :: {p.offs[k].sz} {p.offs[k].off} 0 <= k && k < n ==> p.offs[k].off == offs[k] && p.offs[k].sz == szs[k])
 
 //@ const ghost $initp = Int
+//@ const ghost $fid = Int
+//@ const ghost $mp = Int
 //@ func (d *tDecoder) Decode(b []byte, base unsafe.Pointer, sd *structDesc, maxdepth int) (n int, err error)
 //@   ghost lvl Int, nested Bool
 //@   requires c10_init: nested && sd.hasInitFunc ==> $initp == base
@@ -377,6 +391,16 @@ package reflect
 //@   requires c15_budget: maxdepth >= maxDepthLimit + 2 - 2*lvl
 //@   decreases maxdepth
 //@   call decodeFixedSizeTypes ghost td = t
+//@   call mallocIfPointer ghost sbase = base
+//@   call mallocIfPointer ghost fld = f
+//@   call mallocIfPointer ghost wid = $fid
+//@   entry ghost $fid = 0
+//@   entry ghost $mp = 0
+//@   after Uint16 ghost $fid = res_r
+//@   after mallocIfPointer ghost $mp = res_ret
+//@   call decodeFixedSizeTypes ghost dst = $mp
+//@   call decodeType ghost dst = $mp
+//@   call decodeStringNoCopy ghost dst = $mp
 //@   call decodeType ghost lvl = lvl + 1
 //@   call decodeType ghost wt = tp
 //@   call decodeStringNoCopy ghost wt = tp
@@ -398,6 +422,7 @@ package reflect
 //@   ensures maxdepth == 0 ==> err != nil && n == 0
 //@   ensures c15_zero: maxdepth == 0 ==> err == box(errDepthLimitExceeded, "*thrift.ProtocolException")
 //@   ensures c15_accept48: lvl <= 48 ==> maxdepth > 0
+//@   ensures c03_stop: err == nil && old(destOK(d, b.ptr, len(b))) && (b.ptr + len(b) <= base || base + sdSize(sd) <= b.ptr) ==> n >= 1 && old(M[b.ptr + n - 1]) == tSTOP
 //@   ensures c09_allseen: err == nil ==> forall k int :: {sd.requiredFieldIDs[k]} 0 <= k && k < len(sd.requiredFieldIDs) ==> $seen[sd.requiredFieldIDs[k]]
 //@   ensures c09_missing: isRequiredNotSet(err) ==> exists k int :: 0 <= k && k < len(sd.requiredFieldIDs) && !$seen[sd.requiredFieldIDs[k]]
 //@   entry ghost $cptr = 0
@@ -430,7 +455,8 @@ package reflect
 
 //@ func (d *tDecoder) decodeType(t *tType, b []byte, p unsafe.Pointer, maxdepth int) (n int, err error)
 //@   requires d != nil && spanInv(&d.s) && wfT(t) && p != nil && 0 <= maxdepth && len(b) <= MAXIN
-//@   ghost lvl Int, wt Int, nc Bool
+//@   ghost lvl Int, wt Int, nc Bool, dst Int
+//@   requires c03_dest: dst != 0 ==> p == dst
 //@   requires c03_wt: t.WT == wt
 //@   requires c14_dispatch: !nc
 //@   requires c11_inbelow: b.ptr + len(b) <= $brk
@@ -451,6 +477,8 @@ package reflect
 //@   decreases maxdepth
 //@   call decodeType ghost lvl = lvl + 1
 //@   call decodeType ghost nc = false
+//@   call decodeType ghost dst = 0
+//@   call decodeFixedSizeTypes ghost dst = 0
 //@   call decodeFixedSizeTypes#0 ghost td = t
 //@   call decodeFixedSizeTypes#1 ghost td = kt
 //@   call decodeFixedSizeTypes#2 ghost td = vt
